@@ -268,22 +268,46 @@ class SignatureInfo:
     # resulting `Partial`.
     parameters = list(self.parameters.values())
     positional_values = []
+    # Positional parameters that are unset and were therefore not emitted. A
+    # later positional value must not slide into their place: before emitting
+    # it, they are filled with their defaults (or rejected if they have none).
+    skipped = []
+
+    def fill_skipped():
+      for skipped_param in skipped:
+        if skipped_param.default is skipped_param.empty:
+          raise TypeError(
+              'Missing value for positional parameter '
+              f'{skipped_param.name!r}, which is followed by other positional '
+              'arguments.'
+          )
+        positional_values.append(skipped_param.default)
+      skipped.clear()
+
     for index, param in enumerate(parameters):
       if param.kind == param.POSITIONAL_ONLY:
         if index in arguments:
+          fill_skipped()
           positional_values.append(arguments[index])
           del arguments[index]
         elif include_no_value:
           positional_values.append(self.get_default(index, NO_VALUE))
+        else:
+          skipped.append(param)
       if param.kind == param.POSITIONAL_OR_KEYWORD:
         if include_pos_or_kw_in_args or self.var_positional_start in arguments:
           if param.name in arguments:
+            fill_skipped()
             positional_values.append(arguments[param.name])
             del arguments[param.name]
           elif include_no_value:
             positional_values.append(self.get_default(index, NO_VALUE))
+          else:
+            skipped.append(param)
     if self.var_positional_start is not None:
       index = self.var_positional_start
+      if index in arguments:
+        fill_skipped()
       while index in arguments:
         positional_values.append(arguments[index])
         del arguments[index]
